@@ -1094,7 +1094,7 @@ func areEqualCaseExpr(query, pattern *sqlparser.CaseExpr) bool {
 	if !areEqualExpr(query.Expr, pattern.Expr) {
 		return false
 	}
-	if !areEqualExpr(query.Else, pattern.Expr) {
+	if !areEqualExpr(query.Else, pattern.Else) {
 		return false
 	}
 
